@@ -4,11 +4,14 @@ package main
 // scheduling shims, and the observation helpers (installed tree, remote entry listing).
 
 import (
+	"archive/zip"
+	"bytes"
 	"context"
 	"crypto/sha256"
 	"encoding/hex"
 	"errors"
 	"fmt"
+	"io"
 	"math/rand"
 	"os"
 	"path/filepath"
@@ -28,12 +31,55 @@ import (
 	"verif/harness/internal/shim"
 )
 
-const (
-	remoteRoot = "/remote"
-	cacheKey   = "key"
-	entryDir   = remoteRoot + "/" + cacheKey
-	destDir    = "/dst"
+const destDir = "/dst"
+
+// envSpec: the part of a scenario that the property does not mention but the code may trip over — where the remote
+// storage lives, how the key looks, and the cache configuration's FilesystemItemsToIgnore (which concerns GetEntries
+// only and must not influence Store / Fetch).
+type envSpec struct {
+	Layout string `json:"layout,omitempty"` // "" | "part" (remote path and key contain the text ".part")
+	Ignore string `json:"ignore,omitempty"` // Configuration.FilesystemItemsToIgnore
+}
+
+const defaultIgnore = ".snapshot,ignore-me.txt,.gitignore"
+
+var (
+	remoteRoot  = "/remote"
+	cacheKey    = "key"
+	entryDir    = remoteRoot + "/" + cacheKey
+	lockDirPath = entryDir + "/lockfile-SharedMutableCache-" + cacheKey
+	ignoreItems = ""
 )
+
+// setEnv is called at the start of every scenario (scenarios never overlap).
+func setEnv(e envSpec) {
+	remoteRoot, cacheKey = "/remote", "key"
+	if e.Layout == "part" {
+		remoteRoot, cacheKey = "/srv/cache.partition", "v1.partial"
+	}
+	entryDir = remoteRoot + "/" + cacheKey
+	lockDirPath = entryDir + "/lockfile-SharedMutableCache-" + cacheKey
+	ignoreItems = e.Ignore
+}
+
+func (e envSpec) sig() string {
+	if e.Layout == "" {
+		return ""
+	}
+	return ":remote-path-contains-" + map[string]string{"part": ".part"}[e.Layout]
+}
+
+// envFor spreads the environments over a sweep deterministically.
+func envFor(i int) envSpec {
+	e := envSpec{}
+	if i%3 != 0 {
+		e.Ignore = defaultIgnore
+	}
+	if i%4 == 1 {
+		e.Layout = "part"
+	}
+	return e
+}
 
 var errInjected = errors.New("harness: injected I/O failure")
 
@@ -48,6 +94,7 @@ type treeSpec struct {
 type tree map[string]string // relative path -> sha256 of content ("dir" for directories)
 
 type world struct {
+	strict   *strictFs
 	inner    afero.Fs
 	versions []tree
 	specs    []treeSpec
@@ -56,7 +103,8 @@ type world struct {
 }
 
 func newWorld(specs []treeSpec) *world {
-	w := &world{inner: &strictFs{Fs: afero.NewMemMapFs()}, specs: specs}
+	st := &strictFs{Fs: afero.NewMemMapFs()}
+	w := &world{strict: st, inner: st, specs: specs}
 	_ = w.inner.MkdirAll(remoteRoot, 0o755)
 	_ = w.inner.MkdirAll("/tmp", 0o755)
 	for i, s := range specs {
@@ -72,10 +120,28 @@ func newWorld(specs []treeSpec) *world {
 		_ = afero.WriteFile(w.inner, root+"/sub/s.bin", small, 0o644)
 		if s.Extra {
 			_ = afero.WriteFile(w.inner, root+fmt.Sprintf("/only%d.txt", i), []byte("only here"), 0o644)
+			// files whose names match the usual FilesystemItemsToIgnore patterns: they are part of this version all the same
+			_ = w.inner.MkdirAll(root+"/.snapshot", 0o755)
+			_ = w.inner.MkdirAll(root+"/lib/sub", 0o755)
+			_ = afero.WriteFile(w.inner, root+"/.snapshot/old.txt", []byte(fmt.Sprintf("snapshot of %d", i)), 0o644)
+			_ = afero.WriteFile(w.inner, root+"/lib/ignore-me.txt", []byte(fmt.Sprintf("ignore %d", i)), 0o644)
+			_ = afero.WriteFile(w.inner, root+"/lib/sub/.gitignore", []byte("*.o\n"), 0o644)
 		}
 		w.versions = append(w.versions, w.readTree(root))
 	}
+	w.dirtyDest(destDir)
 	return w
+}
+
+// dirtyDest: a destination is rarely empty — it holds files that belong to no version (some of them with names that
+// match the usual FilesystemItemsToIgnore patterns). Fetch has to replace all of it.
+func (w *world) dirtyDest(dest string) {
+	_ = w.inner.MkdirAll(dest+"/.snapshot", 0o755)
+	_ = w.inner.MkdirAll(dest+"/lib/sub", 0o755)
+	_ = afero.WriteFile(w.inner, dest+"/foreign.txt", []byte("left by somebody else"), 0o644)
+	_ = afero.WriteFile(w.inner, dest+"/.snapshot/foreign-old.txt", []byte("left by somebody else"), 0o644)
+	_ = afero.WriteFile(w.inner, dest+"/lib/ignore-me.txt", []byte("left by somebody else"), 0o644)
+	_ = afero.WriteFile(w.inner, dest+"/lib/sub/.gitignore", []byte("foreign\n"), 0o644)
 }
 
 func (w *world) srcPath(v int) string { return fmt.Sprintf("/src/v%d", v) }
@@ -202,7 +268,7 @@ func (w *world) newClient(kind string, timeout time.Duration, staleView bool) *c
 		}
 	}
 	fs := filesystem.NewVirtualFileSystem(c.sh, filesystem.InMemoryFS, filesystem.IdentityPathConverterFunc)
-	cfg := &sharedcache.Configuration{RemoteStoragePath: remoteRoot, Timeout: timeout}
+	cfg := &sharedcache.Configuration{RemoteStoragePath: remoteRoot, Timeout: timeout, FilesystemItemsToIgnore: ignoreItems}
 	var err error
 	if kind == "mutable" {
 		c.repo, err = sharedcache.NewSharedMutableCacheRepository(cfg, fs)
@@ -260,6 +326,11 @@ func (c *client) hook(op *shim.Op) error {
 			return &shim.ShortWriteError{N: f.shortN(op.N)}
 		}
 		return errInjected
+	case "shortnil", "silent":
+		if op.Name == "f.Write" {
+			c.w.strict.arm(&writeTrick{path: op.Path, keep: f.shortN(op.N), lie: f.Kind == "silent"})
+		}
+		return nil
 	case "crash":
 		c.crashed.Store(true)
 		return c.dead(op)
@@ -332,6 +403,43 @@ func errKind(err error) string {
 
 // ---- remote entry observation (projection) ----
 
+// treeOfPackage reads a package file with archive/zip directly (not through the library under test).
+func (w *world) treeOfPackage(p string) (t tree, ok bool) {
+	defer func() {
+		if recover() != nil {
+			t, ok = nil, false
+		}
+	}()
+	b, err := afero.ReadFile(w.inner, p)
+	if err != nil {
+		return nil, false
+	}
+	zr, err := zip.NewReader(bytes.NewReader(b), int64(len(b)))
+	if err != nil {
+		return nil, false
+	}
+	t = tree{}
+	for _, f := range zr.File {
+		name := strings.TrimSuffix(f.Name, "/")
+		if strings.HasSuffix(f.Name, "/") {
+			t[name] = "dir"
+			continue
+		}
+		rc, err := f.Open()
+		if err != nil {
+			return nil, false
+		}
+		content, err := io.ReadAll(rc)
+		_ = rc.Close()
+		if err != nil {
+			return nil, false
+		}
+		h := sha256.Sum256(content)
+		t[name] = hex.EncodeToString(h[:8])
+	}
+	return t, true
+}
+
 type remoteObs struct {
 	Packages []string `json:"packages"` // per visible package file, oldest first: "v<i>" (complete zip of version i) or "partial"/"other"
 	Parts    int      `json:"parts"`    // number of *.part files
@@ -374,17 +482,15 @@ func (w *world) observeRemote() remoteObs {
 			o.Parts++
 		default:
 			p := filepath.Join(entryDir, n)
-			scratch := fmt.Sprintf("/scratch/%d", rand.Int63())
-			_ = w.inner.MkdirAll(scratch, 0o755)
 			cls := "partial"
-			if _, err := fs.UnzipWithContext(context.Background(), p, scratch); err == nil {
-				if v, _ := w.installed(scratch); v >= 0 {
-					cls = fmt.Sprintf("v%d", v)
-				} else {
-					cls = "other"
+			if t, ok := w.treeOfPackage(p); ok {
+				cls = "other"
+				for i, v := range w.versions {
+					if treeEq(t, v) {
+						cls = fmt.Sprintf("v%d", i)
+					}
 				}
 			}
-			_ = w.inner.RemoveAll(scratch)
 			o.Packages = append(o.Packages, cls)
 			hs := "none"
 			if hb, err := afero.ReadFile(w.inner, p+".hash"); err == nil {
